@@ -312,12 +312,21 @@ def ackQuota (b : B) (c : Cli) (r : PubReq) (code : Nat) : B :=
 def acknowledge (b : B) (c : Cli) (r : PubReq) (code : Nat) : B :=
   ackQuota (ackForget (ackEmit b r code) c r code) c r code
 
+/-- a retransmission of a PUBLISH still awaiting PUBREL gives back the quota unit `readLoop` took for it (v5) -/
+def dupQuota (b : B) (c : Cli) (r : PubReq) (dupl : Bool) : B :=
+  if dupl && c.v == 5 then
+    (match b.cli? r.conn with
+     | some c' => b.setCli { c' with quota := min (c'.quota + 1) b.cfg.recvMax }
+     | none => b)
+  else b
+
 /-- `publishHandler` from the QoS 2 bookkeeping on, for a PUBLISH that passed the checks in front of it:
     `m` is the message built from the packet (topic resolved from the alias), `s` the publisher's session.
-    A duplicate QoS 2 PUBLISH is acknowledged again; the hook is not consulted and nothing is stored or routed. -/
+    A duplicate QoS 2 PUBLISH is acknowledged again (and its receive-quota unit given back); the hook is not consulted
+    and nothing is stored or routed. -/
 def publishPost (v : MsgVerdict) (b : B) (c : Cli) (s : Sess) (r : PubReq) (m : Msg) : B :=
   let dupl := r.qos == 2 && s.unack.contains r.pid
-  let b1 := b.setSess (if r.qos == 2 && !dupl then { s with unack := s.unack ++ [r.pid] } else s)
+  let b1 := dupQuota (b.setSess (if r.qos == 2 && !dupl then { s with unack := s.unack ++ [r.pid] } else s)) c r dupl
   let res : Option Msg × Option Nat := if dupl then (none, none) else v.result m
   let bm := route b1 c r res
   acknowledge bm.1 c r (ackCode c.v res.2 bm.2)
